@@ -154,6 +154,15 @@ def check_wrapper(chk):
             n_fv += 1
             if fname != 'evaluate_expression':
                 _check_function_value_call(chk, mod, fname, func, call, callee)
+            elif caught_by(call, 'RecursionError', func) is None:
+                # The abstract evaluation below decides the wrapper on the paths a host function takes.  A further call site of a function value
+                # outside every catch-all - e.g. a fast path for script functions - is not on those paths, and no function value is safe to call
+                # bare: a script function that recurses deeply raises the host's RecursionError (necessary condition, decided per call site).
+                chk.bad('C05.W', mod, fname, norm(call), 'a function value is called outside any catch-all handler: a host exception raised inside the called function '
+                        '(a library failure, or RecursionError from a deeply recursive script function) reaches the embedding application instead of the call '
+                        'evaluating to null', node=call)
+            else:
+                chk.ok('C05.W', f'{fname}: {norm(call)[:60]} lies under a catch-all handler')
     if n_fv == 0:
         raise Unrecognised('C05.W', 'no call of a function value found in runtime.py', mod.rel)
     # the wrapper around the function value call of evaluate_expression: decided by abstract evaluation (E6e)
